@@ -45,6 +45,7 @@ type Frame struct {
 
 type loopInfo struct {
 	headSt *St // state at the start of the current iteration (after havoc and invariant)
+	cutAt   int // >0: index into e.out of the context barrier set when this loop was entered
 	backIns []edgeIn // back edges collected for the step clauses (checked once on the merged state)
 	head   *ssa.BasicBlock
 	blocks map[*ssa.BasicBlock]bool
@@ -251,6 +252,9 @@ func (e *Enc) runFunction(fr *Frame, entry pathState) (pathState, []Val, bool) {
 		return entry, nil, false
 	}
 	fr.entry = entry.st
+	prevFr := e.curFr
+	e.curFr = fr
+	defer func() { e.curFr = prevFr }()
 	incoming := map[*ssa.BasicBlock][]edgeIn{}
 	var rets []retRec
 	order := topoOrder(fn)
@@ -400,11 +404,31 @@ func (e *Enc) loopMods(fr *Frame, li *loopInfo) *ModSet {
 	return ms
 }
 
+func (e *Enc) loopIsCut(fr *Frame, li *loopInfo) bool {
+	if fr.contract != nil && fr.isTop && fr.contract.LoopCut[li.ord] {
+		return true
+	}
+	if !fr.isTop && e.topContract != nil {
+		for _, c := range e.topContract.InlineLoopCut {
+			if c.Loop == li.ord && calleeMatches(c.Callee, fr.name) && (c.CallK == 0 || c.CallK == fr.inlineOrd) {
+				return true
+			}
+		}
+	}
+	return false
+}
+
 func (e *Enc) enterLoop(fr *Frame, li *loopInfo, ins []edgeIn) pathState {
 	m := e.mergeStates(ins, fmt.Sprintf("f%d_loop%d_entry", fr.id, li.ord))
 	entrySt := m.st
 	// 1. invariant holds on entry
 	e.checkInvariant(fr, li, m.reach, entrySt, "entry")
+	if e.loopIsCut(fr, li) {
+		li.cutAt = len(e.out)
+		if li.cutAt == 0 {
+			li.cutAt = 1
+		}
+	}
 	// 2. havoc loop-modified state
 	st := entrySt.clone()
 	ms := e.loopMods(fr, li)
@@ -587,7 +611,7 @@ func (e *Enc) allocMonotone(before, after *St) {
 	a := e.allocComp()
 	b0, b1 := e.get(before, a), e.get(after, a)
 	if b0 != b1 {
-		e.assume(fmt.Sprintf("(forall ((o Ref)) (! (=> (select %s o) (select %s o)) :pattern ((select %s o))))", b0, b1, b1))
+		e.assume(fmt.Sprintf("(<= %s %s)", b0, b1))
 	}
 }
 
@@ -829,7 +853,7 @@ func (e *Enc) typeFacts(v Val, t types.Type, cur *pathState) {
 	case "Slice":
 		e.assume(fmt.Sprintf("(and (>= (s_len %s) 0) (>= (s_off %s) 0) (>= (s_cap %s) (s_len %s)) (=> (= (s_arr %s) nil) (= (s_cap %s) 0)))", v.T, v.T, v.T, v.T, v.T, v.T))
 		if cur != nil {
-			e.assume(fmt.Sprintf("(select %s (s_arr %s))", e.get(cur.st, e.allocComp()), v.T))
+			e.assume(fmt.Sprintf("(isalloc %s (s_arr %s))", e.get(cur.st, e.allocComp()), v.T))
 		}
 	case "Int":
 		if b, ok := t.Underlying().(*types.Basic); ok && b.Info()&types.IsUnsigned != 0 {
@@ -839,7 +863,7 @@ func (e *Enc) typeFacts(v Val, t types.Type, cur *pathState) {
 		if cur != nil {
 			switch t.Underlying().(type) {
 			case *types.Pointer, *types.Map, *types.Chan:
-				e.assume(fmt.Sprintf("(select %s %s)", e.get(cur.st, e.allocComp()), v.T))
+				e.assume(fmt.Sprintf("(isalloc %s %s)", e.get(cur.st, e.allocComp()), v.T))
 			}
 		}
 	}
@@ -953,8 +977,8 @@ func (e *Enc) allocSubObjects(cur *pathState, ref string, t types.Type) {
 		ft := u.Field(i).Type()
 		if isObjStruct(ft) {
 			sub := e.subAddr(t, i, ref)
-			e.assume(not(sel(e.get(cur.st, a), sub)))
-			e.set(cur.st, a, store(e.get(cur.st, a), sub, "true"))
+			e.assume(eq("(atime "+sub+")", e.get(cur.st, a)))
+			e.set(cur.st, a, "(+ "+e.get(cur.st, a)+" 1)")
 			e.allocSubObjects(cur, sub, ft)
 		}
 	}
@@ -964,8 +988,8 @@ func (e *Enc) newObject(cur *pathState, base string) string {
 	r := e.fresh(base)
 	e.declare(r, "Ref")
 	a := e.allocComp()
-	e.assume(fmt.Sprintf("(and (not (= %s nil)) (not (select %s %s)))", r, e.get(cur.st, a), r))
-	e.set(cur.st, a, store(e.get(cur.st, a), r, "true"))
+	e.assume(fmt.Sprintf("(and (not (= %s nil)) (= (atime %s) %s))", r, r, e.get(cur.st, a)))
+	e.set(cur.st, a, "(+ "+e.get(cur.st, a)+" 1)")
 	return r
 }
 
@@ -1010,7 +1034,7 @@ func (e *Enc) execInstr(fr *Frame, ins ssa.Instruction, cur *pathState) {
 		ft := st.Underlying().(*types.Struct).Field(x.Field).Type()
 		if isObjStruct(ft) {
 			e.setReg(fr, x, Val{T: e.subAddr(st, x.Field, base.T), S: "Ref"})
-			e.assumeIf(cur.reach, sel(e.get(cur.st, e.allocComp()), fr.regs[x].T))
+			e.assumeIf(cur.reach, isAlloc(e.get(cur.st, e.allocComp()), fr.regs[x].T))
 			r := fr.regs[x]
 			r.SubKey = "sub_" + e.structName(st) + "_" + sanitize(st.Underlying().(*types.Struct).Field(x.Field).Name())
 			r.SubOwner = base.T
@@ -1117,6 +1141,14 @@ func (e *Enc) execInstr(fr *Frame, ins ssa.Instruction, cur *pathState) {
 		e.note("channel send modelled as skip (no blocking, no effect on verified heap)")
 	case *ssa.Go:
 		e.note("go statement: spawned goroutine not verified as concurrent code (skip)")
+		// ghost: spawn counters, calls(go:f) / lastarg(go:f, i) in specifications
+		if callee := x.Call.StaticCallee(); callee != nil {
+			var args []Val
+			for _, a := range x.Call.Args {
+				args = append(args, e.val(fr, a))
+			}
+			e.countCall(cur, "go:"+shortFuncName(callee), args)
+		}
 	case *ssa.Defer:
 		c := e.armedComp(fr, x)
 		e.set(cur.st, c, "true")
@@ -1174,7 +1206,7 @@ func (e *Enc) execAlloc(fr *Frame, x *ssa.Alloc, cur *pathState) {
 		r := e.newObject(cur, "cell_"+sanitize(x.Comment))
 		c := e.cellComp(t)
 		e.set(cur.st, c, store(e.get(cur.st, c), r, e.zeroOf(t)))
-		fr.regs[x] = Val{T: r, S: "Ref", Loc: &Loc{Kind: "cell", Comp: c.Name, Base: r, Typ: t}, Typ: x.Type()}
+		fr.regs[x] = Val{T: r, S: "Ref", Loc: &Loc{Kind: "cell", Comp: c.Name, Base: r, Typ: t}, Typ: x.Type(), Alloc: x, AllocFr: fr}
 	default:
 		name := fmt.Sprintf("L_f%d_%s_%s", fr.id, sanitize(x.Comment), x.Name())
 		c := e.comp(name, e.sortOf(t), "local", "L:"+x.Name()+"@"+x.Parent().String())
@@ -1238,6 +1270,23 @@ func (e *Enc) execUnOp(fr *Frame, x *ssa.UnOp, cur *pathState) {
 		}
 		loc := e.addrLoc(v, t)
 		res := Val{T: e.loadLoc(loc, cur.st), S: e.sortOf(t), Typ: t}
+		// provenance of a captured function variable: the single closure stored in it by the
+		// frame that declared it
+		if fvv, ok := x.X.(*ssa.FreeVar); ok {
+			for i, p := range fr.fn.FreeVars {
+				if p != fvv || i >= len(fr.binds) {
+					continue
+				}
+				b := fr.binds[i]
+				if b.Alloc != nil && b.AllocFr != nil {
+					if sv, ok := b.AllocFr.localProv[b.Alloc]; ok {
+						if pv, ok := b.AllocFr.regs[sv]; ok && pv.Fn != nil {
+							res.Fn, res.Binds, res.Ext = pv.Fn, pv.Binds, pv.Ext
+						}
+					}
+				}
+			}
+		}
 		// provenance through single-store locals
 		if a, ok := x.X.(*ssa.Alloc); ok {
 			if sv, ok := fr.localProv[a]; ok {
@@ -1454,6 +1503,17 @@ func (e *Enc) mapDelete(st *St, mt *types.Map, m, k string) {
 	dv := e.get(st, d)
 	present := sel(sel(dv, m), k)
 	lv := e.get(st, l)
+	// a map of length one holding k holds nothing else (lets "the last entry was removed, so the
+	// map is empty" be concluded about the state BEFORE the deletion, where specifications look)
+	if !strings.Contains(m, "?") && !strings.Contains(k, "?") {
+		ks := e.sortOf(mt.Key())
+		mn, kn := e.fresh("delmap"), e.fresh("delkey")
+		e.declare(mn, "Ref")
+		e.declare(kn, ks)
+		e.assume(and(eq(mn, m), eq(kn, k)))
+		e.assume(fmt.Sprintf("(forall ((q %s)) (! (=> (and (= (select %s %s) 1) (select (select %s %s) %s) (select (select %s %s) q)) (= q %s)) :pattern ((select (select %s %s) q))))",
+			ks, lv, mn, dv, mn, kn, dv, mn, kn, dv, mn))
+	}
 	// delete on nil map is a no-op: MD[nil] is empty so present is false
 	e.set(st, l, store(lv, m, "(- "+sel(lv, m)+" "+ite(present, "1", "0")+")"))
 	e.set(st, d, ite(eq(m, "nil"), dv, store(dv, m, store(sel(dv, m), k, "false"))))
@@ -2202,14 +2262,51 @@ func (e *Enc) restoreOwned(fr *Frame, st *St, oldSyms map[string]string) {
 	if len(e.cs.Owns) == 0 || e.curCallees == nil {
 		return
 	}
+	// map types a callee can reach without going through the owning field: its parameters,
+	// receiver and captured variables (one level of pointer/slice indirection)
+	reach := map[string]bool{}
+	var addT func(t types.Type, depth int)
+	addT = func(t types.Type, depth int) {
+		if depth > 3 {
+			return
+		}
+		switch u := t.Underlying().(type) {
+		case *types.Map:
+			reach[typeStr(t)] = true
+			addT(u.Elem(), depth+1)
+		case *types.Pointer:
+			if _, isSt := u.Elem().Underlying().(*types.Struct); !isSt {
+				addT(u.Elem(), depth+1)
+			}
+		case *types.Slice:
+			addT(u.Elem(), depth+1)
+		}
+	}
+	for _, callee := range e.curCallees {
+		if callee == nil {
+			continue
+		}
+		for _, p := range callee.Params {
+			addT(p.Type(), 0)
+		}
+		for _, fv := range callee.FreeVars {
+			addT(fv.Type(), 0)
+		}
+	}
 	for _, sname := range sortedKeys(e.cs.Owns) {
-		touched := false
-		for _, callee := range e.curCallees {
-			if callee == nil || e.mods.accesses(callee, sanitize(sname)) {
-				touched = true
+		var untouched []string
+		for _, fld := range e.cs.Owns[sname] {
+			touched := false
+			for _, callee := range e.curCallees {
+				if callee == nil || e.mods.accessesField(callee, sanitize(sname), fld) {
+					touched = true
+				}
+			}
+			if !touched {
+				untouched = append(untouched, fld)
 			}
 		}
-		if touched {
+		if len(untouched) == 0 {
 			continue
 		}
 		// S objects in scope: pointer-typed parameters of the frames on the stack
@@ -2228,11 +2325,33 @@ func (e *Enc) restoreOwned(fr *Frame, st *St, oldSyms map[string]string) {
 					continue
 				}
 				seen[owner] = true
-				e.restoreOwnedOf(pt.Elem(), owner, e.cs.Owns[sname], st, oldSyms)
+				// a map handed to the callee as an argument is reachable without the field
+				var flds []string
+				if u, ok := pt.Elem().Underlying().(*types.Struct); ok {
+					for _, fld := range untouched {
+						for k := 0; k < u.NumFields(); k++ {
+							if u.Field(k).Name() != fld {
+								continue
+							}
+							mt, ok := u.Field(k).Type().Underlying().(*types.Map)
+							if !ok {
+								continue
+							}
+							if reach[typeStr(u.Field(k).Type())] {
+								continue
+							}
+							if inner, ok := mt.Elem().Underlying().(*types.Map); ok && reach[typeStr(inner)] {
+								continue
+							}
+							flds = append(flds, fld)
+						}
+					}
+				}
+				e.restoreOwnedOf(pt.Elem(), owner, flds, st, oldSyms)
 			}
 		}
 	}
-	e.note("encapsulation (owns declarations): a callee that never accesses a field of the owning struct leaves the maps stored in its owned fields unchanged")
+	e.note("encapsulation (owns declarations): a callee that never accesses an owned field of the owning struct, and is not handed a map of that type, leaves the maps stored in that field unchanged")
 }
 
 func (e *Enc) restoreOwnedOf(t types.Type, owner string, fields []string, st *St, oldSyms map[string]string) {
